@@ -17,13 +17,19 @@ CLAIMED = {
          "the durability shortcut of shallow verification is sound over those histories; never-change writes panic in every state; edges are discarded only for never-change fully tracked memos.", "5/C02"),
  "C03": ("other", "Partial: completeness directions of the same kernels (no spurious re-validation failures, backdating of equal values, per-field revisions). Does not decide that bodies are not re-executed end to end.", "5/C03"),
  "C04": ("other", "Partial: a memo that recorded an untracked read is LOW/now, never shallow-verifiable in a later revision, never evictable, and deep-verifies as changed.", "5/C04"),
+ "C05": ("other", "Partial (transparency kernels only): capacity 0 disables eviction; only values computed from fully tracked dependencies are evictable; evicting discards the value but keeps the memo's dependency information; the fetch fast path never hands out an evicted value. NOT decided: the capacity bound and the LRU order (hashlink LinkedHashSet gave no verdict within 45 min) and end-to-end equality with unbounded caching.", "5/C05 and 11"),
+ "C06": ("other", "Partial: identity equality uses ingredient, hash and disambiguator; re-creating a page-backed struct with equal identity fields keeps its id and moves the tracked field revision only when the value differs or durability decreased; a struct that is no longer created is write-locked, its memos cleared and its slot recycled under a new generation; deleting a struct locked in the current revision panics. NOT decided: DisambiguatorMap / IdentityMap (hashbrown), enumeration.", "5/C06 and 11"),
+ "C07": ("other", "Partial: ids are exactly (slot, generation) pairs with an injective 64-bit encoding; every reuse path (interned LRU scan, tracked-struct free list, identity-field change) hands out generation+1 and never wraps; a dependency on an older interned generation is reported changed; memo tables are empty after the clear every reuse path performs; database keys distinguish generations.", "5/C07"),
+ "C09": ("other", "The retention queue is decided against a reference model (stale iff REVS distinct later revisions were recorded and the value is older than the oldest of them) for REVS 1..4 and histories of <= 6 recorded revisions; reusability iff LOW durability and collection enabled; the LRU tail scan only offers stale, not-currently-used slots; revalidation keeps a value alive. The intern_id fast path (hash lookup) is outside the claim.", "5/C09"),
  "C15": ("model_checking", "Partial: the iteration counter kernel is decided for all 2^16 stamps: it cannot pass 200 nor touch the cancellation byte; 201st increment refused. Recovery after the panic is not claimed.", "5/C15"),
  "C20": ("other", "Partial: cancellation-epoch stamping only: stamp order, epoch counter never wraps, provisional memos of another epoch rejected, pending-write flag makes the cancellation check unwind. Blocking on clones/threads is not claimed.", "5/C20"),
  "C21": ("other", "Partial: CancellationToken state machine for all op sequences <= 4, nested disable guards restore state, cancelled-and-enabled makes the next check unwind. Other handles / waiter retry not claimed.", "5/C21"),
+ "C23": ("other", "Partial: CBMC's pointer checks (null/invalid/out-of-bounds/dead/deallocated dereference) are discharged on the raw-pointer kernels: OriginAndExtra/SliceWithHeader alloc, decode and drop for 0..3 edges in all layouts, page allocation at every fill level incl. full, typed memo-entry table insert/get/take/reset and its type check, interned LRU entry pointer round trip. Histories, references returned by fetch, database drop and data races are not decided.", "5/C23"),
  "C25": ("model_checking", "Stored dependency edges round-trip exactly for every value of every edge field, for N <= 2 edges (quick) / N <= 3 (thorough), both derived kinds, with and without extra data; inputs()/outputs() partition; clear_edges keeps extra. Persisted form (serde) is outside the claim.", "5/C25"),
 }
 
 NOT_APPLICABLE = {
+ "C19": "failed the admission rule (DESIGN 3-2, 11): the protocol state is three FxHashMaps; even one add_edge + depends_on on the real DependencyGraph with concrete keys returned no verdict from CBMC within 45 min; not replaced by a hand-written model because this task studies checking the real code",
  "C08": "canonicality across threads is a schedule property (Kani has no threads) and its sequential core is a hashbrown lookup under a symbolic hash, which CBMC did not decide within 10 min even for concrete keys",
  "C10": "specify_and_record is reachable only through SyncTable::try_claim -> std::thread::current(), unsupported and unstubbable in Kani 0.68",
  "C11": "accumulated_by starts with fetch (same thread::current blocker) and quantifies over programs",
@@ -40,12 +46,7 @@ NOT_APPLICABLE = {
 
 # properties planned but not yet admitted (kept not-applicable until a check exists and passes)
 PENDING = {
- "C05": "pending: container-backed (hashlink) harnesses under calibration; not claimed until admitted (DESIGN 3-2)",
- "C06": "pending: harnesses under construction",
- "C07": "pending: harnesses under construction",
- "C09": "pending: harnesses under construction",
- "C19": "pending: container-backed (3 FxHashMaps) harnesses under calibration; not claimed until admitted (DESIGN 3-2)",
- "C23": "pending: harnesses under construction",
+
 }
 
 
